@@ -10,7 +10,7 @@ FAMILY = {'legacy': 'legacy', 'p2sh-segwit': 'p2sh_p2wpkh', 'segwit': 'p2wpkh'}
 
 
 class C09World(WalletWorld):
-    OPS = [('issue', 16), ('import_key', 2), ('explicit', 5), ('bulk', 5), ('account', 3), ('mixed', 4), ('scan_gap', 4), ('mark_used', 5),
+    OPS = [('issue', 16), ('import_key', 2), ('default_account', 2), ('explicit', 5), ('bulk', 5), ('account', 3), ('mixed', 4), ('scan_gap', 4), ('mark_used', 5),
            ('handles', 7), ('rebuild', 4), ('watch', 3), ('fund', 2), ('mine', 1), ('arm_crash', 2), ('listing', 4)]
 
     def ops_table(self):
@@ -316,6 +316,21 @@ class C09World(WalletWorld):
             w.outcome('imported', key_id=getattr(k, 'key_id', None))
             wi.has_imported = True
 
+    def op_default_account(self, wi):
+        """Make another existing account the wallet's default: explicit requests for account 0 must still get account 0."""
+        ch, w = self.ch, self.w
+        if wi.kind != 'hd' or len(wi.accounts) < 2:
+            return
+        h = self.H(wi)
+        acc = sorted(wi.accounts)[ch.index('def_acc', len(wi.accounts))]
+        w.op('set_default_account', wallet=wi.name, account=acc)
+
+        def setit():
+            h.default_account_id = acc
+        ok, _ = self.call(wi, 'default_account', setit)
+        if ok:
+            w.outcome('default_account', account=acc)
+
     def op_mark_used(self, wi):
         """Fund an issued address and let the wallet learn about it: the next get_key must move on."""
         self.op_fund(wi)
@@ -399,7 +414,7 @@ class C09World(WalletWorld):
         name = 'rebuilt%d' % self.rebuilt
         if wi.kind == 'hd':
             how = ch.pick('rebuild_from', ['xprv', 'wif_export'])
-            keyarg = self.xprv(wi.ref['master'])
+            keyarg = self.xprv(wi.ref['master'])   # reference master key (for mnemonic wallets: from the BIP39 seed)
             if how == 'wif_export':
                 ok, keyarg2 = self.observe(lambda: h.wif(is_private=True))
                 if ok and keyarg2:
